@@ -26,7 +26,7 @@ from .choices import Choices
 
 PROP = "C13"
 BATCH = 40
-SHRINK_EVALS = 300
+SHRINK_EVALS = 600
 JOB_TIMEOUT_S = 1800
 VD_QUICK = ["float64", "int64", "bool", "datetime64[ns]"]
 VD_THOROUGH = VD_QUICK + ["float32", "timedelta64[ns]"]
@@ -169,7 +169,16 @@ def run_one(scen: Choices, sched: Choices, cls, cfg):
         st["threshold"] = [1, 2, 4, 8][scen.draw(4)]
     max_steps = 8 if tier == "quick" else 14
     nsteps = 2 + scen.small(max_steps - 2)
-    steps = [gen_step(scen, ds, tier) for _ in range(nsteps)]
+    steps = []
+    while len(steps) < max_steps:
+        b_ = scen.begin()
+        if not scen.forced(1 if len(steps) < nsteps else 0):  # "one more step?"
+            break
+        steps.append(gen_step(scen, ds, tier))
+        scen.end(b_)
+    if not steps:
+        steps = [gen_step(Choices(replay=[]), ds, tier)]
+    nsteps = len(steps)
     fault = None
     fault_step = None
     if cfg.get("fault_mode"):
